@@ -364,11 +364,16 @@ impl<'a, W: 'static, R: 'static, T: 'static> RuntimeScope<'a, W, R, T> {
                     if let XExpr::Value(cell_idx) = callee.as_ref() {
                         let cell = self.get_cell_value(*cell_idx);
                         if let EvaluationCell::LocalRecourse = cell {
-                            let args = args
-                                .iter()
-                                .map(|x| self.eval(x, rt.clone(), false).map(|r| r.unwrap_value()))
-                                .collect::<Result<_, _>>()?;
-                            return Ok(TailedEvalResult::TailCall(args));
+                            let mut values = Vec::with_capacity(args.len());
+                            for x in args {
+                                let v = self.eval(x, rt.clone(), false)?.unwrap_value();
+                                if v.is_err() {
+                                    // an error argument is the result of the call
+                                    return Ok(v.into());
+                                }
+                                values.push(v);
+                            }
+                            return Ok(TailedEvalResult::TailCall(values));
                         }
                     }
                 }
@@ -392,11 +397,16 @@ impl<'a, W: 'static, R: 'static, T: 'static> RuntimeScope<'a, W, R, T> {
         match func {
             XFunction::Native(nc) => nc(args, self, tail_available, rt),
             XFunction::UserFunction { .. } => {
-                let args = args
-                    .iter()
-                    .map(|e| self.eval(e, rt.clone(), false).map(|r| r.unwrap_value()))
-                    .collect::<Result<Vec<_>, _>>()?;
-                self.eval_func_with_values(func, args, rt, tail_available)
+                let mut values = Vec::with_capacity(args.len());
+                for e in args {
+                    let v = self.eval(e, rt.clone(), false)?.unwrap_value();
+                    if v.is_err() {
+                        // user functions are not short-circuiting: an error argument is the result
+                        return Ok(v.into());
+                    }
+                    values.push(v);
+                }
+                self.eval_func_with_values(func, values, rt, tail_available)
             }
         }
     }
@@ -414,6 +424,9 @@ impl<'a, W: 'static, R: 'static, T: 'static> RuntimeScope<'a, W, R, T> {
                 self.eval_func_with_expressions(func, &args, rt, tail_available)
             }
             XFunction::UserFunction { template, output } => {
+                if let Some(e) = args.iter().find_map(|a| a.as_ref().err()) {
+                    return Ok(Err(e.clone()).into());
+                }
                 {
                     rt.increment_call_limit()?;
                     rt.check_timeout()?;
